@@ -1,4 +1,4 @@
-import JediModel.Gen.C13
+import JediModel.Model.ObjCfg
 import JediModel.Lemmas.ObjModel
 /-! # C13 — Interpreter reflects live objects; safe mode runs no user descriptors
 
@@ -14,24 +14,6 @@ stated for both values, so that they stay checkable before and after a fix:
 namespace JediModel.Props.C13
 open JediModel.ObjModel
 open JediModel.Gen
-
-/-- the configuration read from the source, with the three shape flags left open -/
-def cfgWith (metaFlag hasIterFlag boolFlag : Bool) : Cfg :=
-  { allowedDescr := C13.allowedDescriptorAccess
-    allowedGetitem := C13.allowedGetitemTypes
-    isDescriptorCond := C13.isDescriptorCond
-    getAbsentCond := C13.getAbsentCond
-    getEmptyCond := C13.getEmptyCond
-    getNotInDirCond := C13.getNotInDirCond
-    getitemRefuses := C13.getitemRefuses
-    iterListRefuses := C13.iterListRefuses
-    mixedUsesCompiled := C13.mixedGetitemUsesCompiled
-    metaHitReportsGet := metaFlag
-    hasIterExecutes := hasIterFlag
-    boolExecutes := boolFlag }
-
-/-- the source as it is -/
-def genCfg : Cfg := cfgWith C13.metaHitReportsGet C13.hasIterExecutes C13.boolExecutes
 
 /-- the builtin container types whose `[]` / iteration run no user code (their exact type) -/
 def builtinContainers : List String :=
